@@ -125,6 +125,30 @@ def same_generator(ctx):
         ctx.problem("machinery", "harness generator copies differ", "harness/db/zz_verif_c12_gen_test.go vs harness/guardiand_db/zz_verif_c12_gen_test.go")
 
 
+def concurrent_users(ctx):
+    """one handle used by writers and readers at once (processor stores, gRPC lookups): every lookup against the harness's own record"""
+    rc, out, trace = core.harness_pkg(ctx, "db", "^TestVerifC12Conc$", timeout=1200, race=(ctx.tier == "thorough"))
+    rows = [r for r in core.read_jsonl(trace) if r.get("k") == "c12conc"]
+    if "DATA RACE" in out:
+        i = out.index("DATA RACE")
+        ctx.problem("monitor", "the race detector reports a data race between concurrent users of the store", out[max(0, i - 50):i + 1500], concrete=True,
+                    replay={"race_report": out[max(0, i - 50):i + 3000]}, key="conc:race")
+        return
+    if rc != 0 or not rows:
+        ctx.problem("correspondence", "go harness C12 (concurrent users of one handle)", out[-1500:])
+        return
+    r = rows[0]
+    ctx.cov["concurrent_users"] = {k: v for k, v in r.items() if k not in ("k", "mon")}
+    seen = set()
+    for m in r.get("mon") or []:
+        k = "conc:" + ("never-stored" if "never-stored" in m else "end" if "after the concurrent phase" in m else "lookup")
+        if k in seen:
+            continue
+        seen.add(k)
+        ctx.problem("monitor", m, "observed on the real store (%d writers, %d readers, one handle)" % (r.get("writers", 0), r.get("readers", 0)), concrete=True,
+                    replay={"monitor": m, "test": "TestVerifC12Conc", "seed": ctx.seed}, key=k)
+
+
 def run(ctx):
     core.run_extract(ctx, ["db_keys", "vaa_consts"])
     coq_prove_retry(ctx, "C12", extra_targets=["model/DbRun.vo"])
@@ -132,6 +156,8 @@ def run(ctx):
         core.coq_thorough_audit(ctx, "C12")
     same_generator(ctx)
     env = {"VERIF_REPLAY": os.path.abspath(ctx.replay)} if ctx.replay else None
+    if not ctx.replay:
+        concurrent_users(ctx)
     rows = []
     for key, rx, label in (("db", "^TestVerifC12$", "db"), ("guardiand_db", "^TestVerifC12Rpc$", "rpc")):
         rc, out, trace = core.harness_pkg(ctx, key, rx, env=env, timeout=1800)
